@@ -932,7 +932,7 @@ class Generator:
                 # a path of arms `A > B #2`: the first arm whose pattern starts with A, inside its body the second whose pattern starts with B
                 arm, scope = None, it["body"]
                 for step in prefix.split(" > "):
-                    mm = re.match(r"^(.*?)(?:\s+#(\d+))?$", step.strip())
+                    mm = re.match(r"^(.*?)(?:\s*#(\d+))?$", step.strip())
                     want, kth = norm(mm.group(1)), int(mm.group(2) or 1)
                     cands = [a for a in it.get("arms", []) if a["span"][0] >= scope[0] and a["span"][1] <= scope[1] and norm(src[a["pat"][0]:a["pat"][1]].decode()).startswith(want)]
                     # only the outermost candidates of this scope (an arm nested in another candidate belongs to a deeper step)
